@@ -181,6 +181,22 @@ class EnumConst(P):
         return getattr(getattr(importlib.import_module(self.module), self.cls), self.member)
 
 
+class IntPairList(P):
+    """list[tuple[int, int]] of symbolic length"""
+
+    def make(self, I, name):
+        a = z3.Function(f"{name}.first", z3.IntSort(), z3.IntSort())
+        b = z3.Function(f"{name}.second", z3.IntSort(), z3.IntSort())
+        s = SymSeq(None, "obj", name, None, None, lambda i, a=a, b=b: STuple([a(i if V.is_z3(i) else z3.IntVal(i)), b(i if V.is_z3(i) else z3.IntVal(i))]))
+        s.first, s.second = a, b
+        I.base_assumptions.append(s.length >= 0)
+        return s
+
+    def concrete(self, m, sym, ctx):
+        n = m.eval(sym.length, model_completion=True).as_long()
+        return [(m.eval(sym.first(z3.IntVal(i)), model_completion=True).as_long(), m.eval(sym.second(z3.IntVal(i)), model_completion=True).as_long()) for i in range(min(n, 30))]
+
+
 class FixedTuple(P):
     def __init__(self, *elems: P):
         self.elems = elems
